@@ -174,7 +174,86 @@ fn huge_image(rng: &mut Rng, k: u64) -> (Vec<u8>, J) {
 }
 
 /// Extra case k of the C08 check (sweep cases first, then huge-table images).
-pub fn build_extra_scenario(prop: &str, seed: u64, k: u64, tier: &str, _samples: &Samples) -> Scenario {
+const SWEEP_PROFILES: [Profile; 8] = [
+    Profile { short_p: 0, short_max: 1, eintr_p: 0 },
+    Profile { short_p: 256, short_max: 1, eintr_p: 0 },
+    Profile { short_p: 256, short_max: 7, eintr_p: 0 },
+    Profile { short_p: 96, short_max: 64, eintr_p: 0 },
+    Profile { short_p: 200, short_max: 4096, eintr_p: 0 },
+    Profile { short_p: 0, short_max: 1, eintr_p: 51 },
+    Profile { short_p: 160, short_max: 3, eintr_p: 51 },
+    Profile { short_p: 256, short_max: 1024, eintr_p: 16 },
+];
+
+/// Deterministic sweep over the real sample objects: every sample (raw and re-laid-out
+/// headers-first) x every endian spec x a fixed list of reader profiles, each with the
+/// canonical full stream query set asked twice.
+pub fn sample_cases(samples: &Samples) -> u64 {
+    ((samples.raw.len() + samples.relaid.len()) * 3 * SWEEP_PROFILES.len()) as u64
+}
+
+fn sample_scenario(prop: &str, seed: u64, k: u64, tier: &str, samples: &Samples) -> Scenario {
+    let np = SWEEP_PROFILES.len() as u64;
+    let profile = SWEEP_PROFILES[(k % np) as usize];
+    let spec = [Spec::Any, Spec::Le, Spec::Be][((k / np) % 3) as usize];
+    let idx = (k / (np * 3)) as usize;
+    let (name, bytes, relaid) = if idx < samples.raw.len() {
+        (samples.raw[idx].0.clone(), samples.raw[idx].1.clone(), false)
+    } else {
+        let j = idx - samples.raw.len();
+        (samples.relaid[j].0.clone(), samples.relaid[j].1.clone(), true)
+    };
+    let model = Model::of(&bytes);
+    let mut ops = workload::full_query_set(&bytes, &model, false);
+    ops.truncate(200);
+    // second pass: everything again (cache hits), in reverse order
+    let n = ops.len() as u32;
+    let again: Vec<crate::ops::OpRec> = ops
+        .iter()
+        .rev()
+        .enumerate()
+        .map(|(i, o)| crate::ops::OpRec {
+            id: n + 1 + i as u32,
+            op: o.op.clone(),
+        })
+        .collect();
+    ops.extend(again);
+    let run_seed = mix(mix(seed, prop_id(prop) ^ 0x5a3e), k);
+    let len = bytes.len() as u64;
+    Scenario {
+        prop: prop.to_string(),
+        seed,
+        run: k,
+        tier: tier.to_string(),
+        spec,
+        durable_len: bytes.len(),
+        recipe: J::obj()
+            .with("source", J::s(if relaid { "sample-relaid-headers-first" } else { "sample" }))
+            .with("name", J::Str(name))
+            .with("len", J::u(len))
+            .with("class_sig", J::u(0x6000_0000_0000 | k)),
+        image: bytes,
+        suffix: Vec::new(),
+        ops,
+        reader: ReaderCfg {
+            run_seed,
+            profile,
+            init_pos: (k * 7919) % (len + 6),
+            overrides: Vec::new(),
+            heal_at_epilogue: false,
+            clean_after_failure: false,
+        },
+        epilogue: false,
+        mode: "sample-sweep".into(),
+    }
+}
+
+pub fn build_extra_scenario(prop: &str, seed: u64, k: u64, tier: &str, samples: &Samples) -> Scenario {
+    let ns = sample_cases(samples);
+    if k < ns {
+        return sample_scenario(prop, seed, k, tier, samples);
+    }
+    let k = k - ns;
     let thorough = tier == "thorough";
     // field sweep first, then the huge-table images (both for C07 and C08)
     let n_sweep = sweep_cases();
